@@ -13,13 +13,13 @@ Validated only (harness/props/c05.py): bounds of `+`, `-`, `/`, exactness of com
 operands, normalisation after addition (known finding C05-add-zero-operand lives there).
 -/
 import MpycV.Props.C02
-import MpycV.Model.Flt
+import MpycV.Lemmas.FxpFlt
 
 namespace MpycV.C05
 open MpycV.Fxp MpycV.Flt
 
 /-- significand type of `SecFlt(s=11, e=·)`: `SecFxp(12, 10)`, default security parameter -/
-def P1210 : Nat := 72057594037927931 * 0 + 18014398509481951
+def P1210 : Nat := 18014398509481951
 def T1210 : Ty := ⟨12, 10, 30, P1210⟩
 
 /-! ### negation, comparisons, output -/
@@ -43,8 +43,8 @@ example : outE T1210 ⟨⟨0, false⟩, -10⟩ = 0 ∧ outE T1210 ⟨⟨512, fal
 
 /-- enough fractional bits: the significand is exact -/
 theorem io_exact (t : Ty) (x : Dy) (e : Int) (hm : x.m ≠ 0) (hsh : 0 ≤ x.e - e + (t.f : Int)) :
-    (ofFloat t x e).S.A = x.m * (2 : Int) ^ (x.e - e + (t.f : Int)).toNat ∧ (ofFloat t x e).E = e := by
-  unfold ofFloat ofFloatNoFlag scaleRound
+    (Flt.ofFloat t x e).S.A = x.m * (2 : Int) ^ (x.e - e + (t.f : Int)).toNat ∧ (Flt.ofFloat t x e).E = e := by
+  unfold Flt.ofFloat ofFloatNoFlag scaleRound
   simp [hm, hsh]
 
 /-- **io_bound**: for `x = m·2^q ≠ 0` and the exponent `e` the code computes (`|x| ≥ 2^(e-1)`, hypothesis
@@ -52,13 +52,13 @@ theorem io_exact (t : Ty) (x : Dy) (e : Int) (hm : x.m ≠ 0) (hsh : 0 ≤ x.e -
 (stated after multiplying by `2^(e-q-f)·2^f`), i.e. input is within `u|x| ≤ 2u|x|`. -/
 theorem io_bound (t : Ty) (x : Dy) (e : Int) (hm : x.m ≠ 0) (hsh : x.e - e + (t.f : Int) < 0)
     (hlow : (2 : Int) ^ (-(x.e - e + (t.f : Int))).toNat * (2 : Int) ^ t.f ≤ 2 * |x.m|) :
-    (2 : Int) ^ t.f * |(ofFloat t x e).S.A * (2 : Int) ^ (-(x.e - e + (t.f : Int))).toNat - x.m| ≤ |x.m| ∧
-      (ofFloat t x e).E = e := by
-  have hS : (ofFloat t x e).S.A = roundHalfEven x.m (-(x.e - e + (t.f : Int))).toNat := by
-    unfold ofFloat ofFloatNoFlag scaleRound
+    (2 : Int) ^ t.f * |(Flt.ofFloat t x e).S.A * (2 : Int) ^ (-(x.e - e + (t.f : Int))).toNat - x.m| ≤ |x.m| ∧
+      (Flt.ofFloat t x e).E = e := by
+  have hS : (Flt.ofFloat t x e).S.A = roundHalfEven x.m (-(x.e - e + (t.f : Int))).toNat := by
+    unfold Flt.ofFloat ofFloatNoFlag scaleRound
     simp only [hm, if_false]
     rw [if_neg (by omega)]
-  have hE : (ofFloat t x e).E = e := by unfold ofFloat; simp [hm]
+  have hE : (Flt.ofFloat t x e).E = e := by unfold Flt.ofFloat; simp [hm]
   refine ⟨?_, hE⟩
   rw [hS]
   have h1 := C02.roundHalfEven_err x.m (-(x.e - e + (t.f : Int))).toNat
@@ -67,8 +67,8 @@ theorem io_bound (t : Ty) (x : Dy) (e : Int) (hm : x.m ≠ 0) (hsh : x.e - e + (
   set err := |roundHalfEven x.m (-(x.e - e + (t.f : Int))).toNat * S - x.m|
   have h2 : (2 : Int) ^ t.f * (2 * err) ≤ (2 : Int) ^ t.f * S := mul_le_mul_of_nonneg_left h1 hF.le
   nlinarith
-example : (ofFloat T1210 ⟨5404319552844595, -54⟩ (-1)) = ⟨⟨614, false⟩, -1⟩ ∧
-    (ofFloat T1210 ⟨3, -1⟩ 1) = ⟨⟨768, false⟩, 1⟩ ∧ (ofFloat T1210 ⟨0, 0⟩ 0) = ⟨⟨0, false⟩, 0⟩ := by decide
+example : (Flt.ofFloat T1210 ⟨5404319552844595, -54⟩ (-1)) = ⟨⟨614, false⟩, -1⟩ ∧
+    (Flt.ofFloat T1210 ⟨3, -1⟩ 1) = ⟨⟨768, false⟩, 1⟩ ∧ (Flt.ofFloat T1210 ⟨0, 0⟩ 0) = ⟨⟨0, false⟩, 0⟩ := by decide
 
 /-! ### product -/
 
@@ -179,7 +179,6 @@ theorem prod_range (x y s D : Int) (hD : 0 < D)
   have keyn : ∀ (P : Int), 4 * D * D ≤ P → P ≤ 16 * D * D → -(4 * D) < s * (4 * D) + P → s * (4 * D) + P < 4 * D →
       -(4 * D) ≤ s ∧ s ≤ -D := by
     intro P p1 p2 a1 a2
-    have := key P p1 p2 (s := -s) |>.elim
     constructor
     · by_contra hcon
       have : s ≤ -(4 * D) - 1 := by omega
@@ -248,8 +247,8 @@ theorem norm_inv_mul {t : Ty} (hodd : t.p % 2 = 1) (hlf : t.l = t.f + 2) (hf2 : 
   rw [hF] at hone
   set s := mulSS t a.S b.S r with hs
   have hrange := prod_range a.S.A b.S.A s.A D hDpos
-    (by rcases na with h | h | h <;> [left; (right; left); (right; right)] <;> first | exact h | omega)
-    (by rcases nb with h | h | h <;> [left; (right; left); (right; right)] <;> first | exact h | omega) hone
+    (by rcases na with h | h | h <;> [left; (right; left); (right; right)] <;> exact h)
+    (by rcases nb with h | h | h <;> [left; (right; left); (right; right)] <;> exact h) hone
   -- value of the result
   have hval : (Flt.mul t a b r).S.A =
       ((s.A / (4 * D)) % 2 - (s.A / (2 * D)) % 2) ^ 2 * (-s.A) + 2 * s.A := by
@@ -265,6 +264,172 @@ theorem norm_inv_mul {t : Ty} (hodd : t.p % 2 = 1) (hlf : t.l = t.f + 2) (hf2 : 
   rw [hval, hF, hF1]
   exact renorm_core s.A D hDpos hrange
 example : Normal T1210 (Flt.mul T1210 ⟨⟨768, false⟩, 1⟩ ⟨⟨-512, false⟩, 0⟩ ([0, 0, 0, 0, 0, 0, 0, 0, 0, 0], 3)) := by
+  unfold Normal; decide
+
+/-! ### addition: renormalisation -/
+
+/-- the normalisation factor `N·2^(f-(l-1))` evaluates to `2^(i-1)` (as scaled integer `2^i·2^(f-1)`), flag False -/
+theorem normFactor_eval {t : Ty} (hodd : t.p % 2 = 1) (hlf : t.l = t.f + 2) (hf1 : 1 ≤ t.f) (i : Nat)
+    (hfit : Fits t.p ((2 : Int) ^ i * (2 : Int) ^ (t.f - 1))) :
+    normFactor t i = ⟨(2 : Int) ^ i * (2 : Int) ^ (t.f - 1), false⟩ := by
+  have he : ((t.f : Int) - ((t.l : Int) - 1)) = -1 := by rw [hlf]; push_cast; ring
+  have hB : scaleRound t.f ⟨1, (t.f : Int) - ((t.l : Int) - 1)⟩ = (2 : Int) ^ (t.f - 1) := by
+    unfold scaleRound
+    simp only [he]
+    rw [if_pos (by omega)]
+    have : (-1 + (t.f : Int)).toNat = t.f - 1 := by omega
+    rw [this, one_mul]
+  have hz : zOf t.f ((2 : Int) ^ (t.f - 1)) = t.f - 1 := by
+    unfold zOf
+    rw [if_neg (two_pow_pos _).ne']
+    have : ((2 : Int) ^ (t.f - 1)).natAbs = 2 ^ (t.f - 1) := by
+      rw [Int.natAbs_pow]; rfl
+    rw [this, tz_two_pow]; omega
+  unfold normFactor mulFloat
+  simp only [hB, hz]
+  have hne : ¬ ((t.f - 1 == t.f) = true) := by simp; omega
+  simp only [hne, if_false, if_true, Bool.and_false]
+  have h1 : t.f - (t.f - 1) = 1 := by omega
+  have hdiv : (2 : Int) ^ (t.f - 1) / (2 : Int) ^ (t.f - 1) = 1 := Int.ediv_self (two_pow_pos _).ne'
+  rw [hdiv, mul_one, h1]
+  have hsplit : (2 : Int) ^ i * (2 : Int) ^ t.f = (2 : Int) ^ 1 * ((2 : Int) ^ i * (2 : Int) ^ (t.f - 1)) := by
+    have : t.f = (t.f - 1) + 1 := by omega
+    conv_lhs => rw [this, pow_succ]
+    ring
+  have hd : (2 : Int) ^ 1 ∣ (2 : Int) ^ i * (2 : Int) ^ t.f := by rw [hsplit]; exact Dvd.intro _ rfl
+  have hq : (2 : Int) ^ i * (2 : Int) ^ t.f / (2 : Int) ^ 1 = (2 : Int) ^ i * (2 : Int) ^ (t.f - 1) := by
+    rw [hsplit, Int.mul_ediv_cancel_left _ (two_pow_pos 1).ne']
+  rw [rsh_of_dvd_fits hodd hd (by rw [hq]; exact hfit), hq]
+  simp
+example : normFactor T1210 0 = ⟨512, false⟩ ∧ normFactor T1210 3 = ⟨4096, false⟩ := by decide
+
+/-- integer core of the renormalisation: `K = l-1` magnitude bits, `-2^K ≤ s ≤ 2^K`, `i` the index found
+by the leading-bit search, `o` the truncated `s·2^(i-1)` (within half a unit: `|2o − s·2^i| ≤ 1`);
+then `o = 0` or `2^(K-2) ≤ |o| ≤ 2^(K-1)` -/
+theorem add_renorm_core (s o : Int) (K : Nat) (hK : 2 ≤ K) (h0 : -(2 : Int) ^ K ≤ s) (h1 : s ≤ (2 : Int) ^ K)
+    (ho : |2 * o - s * (2 : Int) ^ (findIdx s (1 - bitAt s K) K 0)| ≤ 1) :
+    o = 0 ∨ ((2 : Int) ^ (K - 2) ≤ o ∧ o ≤ (2 : Int) ^ (K - 1)) ∨ (-(2 : Int) ^ (K - 1) ≤ o ∧ o ≤ -(2 : Int) ^ (K - 2)) := by
+  have hKpos : (0 : Int) < (2 : Int) ^ K := two_pow_pos K
+  have e1 : (2 : Int) ^ K = 2 * (2 : Int) ^ (K - 1) := by
+    have : K = (K - 1) + 1 := by omega
+    conv_lhs => rw [this, pow_succ]
+    ring
+  have e2 : (2 : Int) ^ (K - 1) = 2 * (2 : Int) ^ (K - 2) := by
+    have : K - 1 = (K - 2) + 1 := by omega
+    rw [this, pow_succ]; ring
+  have hpos2 : (0 : Int) < (2 : Int) ^ (K - 2) := two_pow_pos _
+  rw [abs_le] at ho
+  -- scaling: 2^q * 2^(K-1-q) = 2^(K-1)
+  have scale : ∀ q, q < K → (2 : Int) ^ q * (2 : Int) ^ (K - 1 - q) = (2 : Int) ^ (K - 1) := by
+    intro q hq; rw [← pow_add]; congr 1; omega
+  have scale' : ∀ q, q < K → (2 : Int) ^ (q + 1) * (2 : Int) ^ (K - 1 - q) = (2 : Int) ^ K := by
+    intro q hq; rw [← pow_add]; congr 1; omega
+  rcases lt_trichotomy s 0 with hneg | hzero | hpos
+  · -- negative: sign bit 1, search for a 0
+    have hb : bitAt s K = 1 := by
+      unfold bitAt; rw [ediv_eq_of' hKpos (q := -1) (by omega) (by omega)]; rfl
+    rw [hb] at ho
+    simp only [sub_self] at ho
+    rcases findIdx_neg s K 0 h0 hneg with ⟨hs, hi⟩ | ⟨q, hq, a, b, hi⟩
+    · rw [hi, hs] at ho
+      simp only [zero_add] at ho
+      right; right; constructor <;> omega
+    · rw [hi] at ho
+      simp only [zero_add] at ho
+      have hP : (0 : Int) < (2 : Int) ^ (K - 1 - q) := two_pow_pos _
+      have m1 : -(2 : Int) ^ K ≤ s * (2 : Int) ^ (K - 1 - q) := by
+        have := mul_le_mul_of_nonneg_right a hP.le
+        rw [neg_mul, scale' q hq] at this; exact this
+      have m2 : s * (2 : Int) ^ (K - 1 - q) < -(2 : Int) ^ (K - 1) := by
+        have := mul_lt_mul_of_pos_right b hP
+        rw [neg_mul, scale q hq] at this; exact this
+      right; right; constructor <;> omega
+  · -- zero
+    subst hzero
+    left
+    simp only [zero_mul, sub_zero] at ho
+    omega
+  · rcases lt_or_ge s ((2 : Int) ^ K) with hlt | hge
+    · have hb : bitAt s K = 0 := by
+        unfold bitAt; rw [ediv_eq_of' hKpos (q := 0) (by omega) (by omega)]; rfl
+      rw [hb] at ho
+      simp only [sub_zero] at ho
+      rcases findIdx_pos s K 0 hpos.le hlt with ⟨hs, _⟩ | ⟨q, hq, a, b, hi⟩
+      · omega
+      · rw [hi] at ho
+        simp only [zero_add] at ho
+        have hP : (0 : Int) < (2 : Int) ^ (K - 1 - q) := two_pow_pos _
+        have m1 : (2 : Int) ^ (K - 1) ≤ s * (2 : Int) ^ (K - 1 - q) := by
+          have := mul_le_mul_of_nonneg_right a hP.le
+          rw [scale q hq] at this; exact this
+        have m2 : s * (2 : Int) ^ (K - 1 - q) < (2 : Int) ^ K := by
+          have := mul_lt_mul_of_pos_right b hP
+          rw [scale' q hq] at this; exact this
+        right; left; constructor <;> omega
+    · -- s = 2^K: the sum of two significands of magnitude 1 (sign bit set by overflow), found at index 0
+      have hs : s = (2 : Int) ^ K := le_antisymm h1 hge
+      have hb : bitAt s K = 1 := by
+        unfold bitAt; rw [hs, Int.ediv_self hKpos.ne']; rfl
+      have hi : findIdx s (1 - 1) K 0 = 0 := by
+        obtain ⟨k', rfl⟩ : ∃ k', K = k' + 1 := ⟨K - 1, by omega⟩
+        unfold findIdx
+        have : bitAt s k' = 0 := by
+          unfold bitAt
+          rw [hs, pow_succ, Int.mul_ediv_cancel_left _ (two_pow_pos k').ne']; rfl
+        simp [this]
+      rw [hb, hi, hs] at ho
+      simp only [pow_zero, mul_one] at ho
+      right; left; constructor <;> omega
+
+/-- **norm_inv_add (renormalisation step)**: whatever sum `s` of two aligned significands the first half of
+`__add__` produced (`|s| ≤ 2^(f+1)`, any flag satisfying `FInv`), the result of the second half —
+leading-bit search, scaling by `2^(i-1)` with ONE truncation, any randomness — is normalised. -/
+theorem norm_inv_addNorm {t : Ty} (hodd : t.p % 2 = 1) (hlf : t.l = t.f + 2) (hf2 : 2 ≤ t.f) (s : V) (e1 : Int)
+    (hs : FInv t.f s) (h0 : -(2 : Int) ^ (t.f + 1) ≤ s.A) (h1 : s.A ≤ (2 : Int) ^ (t.f + 1)) (hfitS : Fits t.p s.A)
+    (r : Rnd) (hbits : IsBits r.1) (hlen : r.1.length = t.f)
+    (hfitN : Fits t.p ((2 : Int) ^ (leadIdx t s.A) * (2 : Int) ^ (t.f - 1)))
+    (hlo : 0 ≤ s.A * ((2 : Int) ^ (leadIdx t s.A) * (2 : Int) ^ (t.f - 1)) + (2 : Int) ^ (t.l + t.f - 1) + r.2 * (2 : Int) ^ t.f)
+    (hhi : s.A * ((2 : Int) ^ (leadIdx t s.A) * (2 : Int) ^ (t.f - 1)) + (2 : Int) ^ t.f + (2 : Int) ^ (t.l + t.f - 1)
+      + r.2 * (2 : Int) ^ t.f ≤ t.p)
+    (hfit : 2 * (|s.A * ((2 : Int) ^ (leadIdx t s.A) * (2 : Int) ^ (t.f - 1)) / (2 : Int) ^ t.f| + 1) < t.p) :
+    Normal t (addNorm t s e1 r) := by
+  unfold addNorm
+  simp only []
+  rw [norm_of_fits hfitS]
+  set i := leadIdx t s.A with hi
+  have hN := normFactor_eval hodd hlf (by omega) i hfitN
+  have hone := C02.mul_within_one_unit (t := t) hodd (a := s) (b := normFactor t i) hs
+    (by rw [hN]; intro h; simp at h) r hbits hlen (by omega)
+    (by rw [hN]; exact hlo) (by rw [hN]; exact hhi) (by rw [hN]; exact hfit)
+  have hNA : (normFactor t i).A = (2 : Int) ^ i * (2 : Int) ^ (t.f - 1) := by rw [hN]
+  rw [hNA] at hone
+  set o := (mulSS t s (normFactor t i) r).A with ho
+  -- |o * 2^f - s * 2^i * 2^(f-1)| < 2^f   ==>   |2 o - s 2^i| ≤ 1
+  have hF : (2 : Int) ^ t.f = 2 * (2 : Int) ^ (t.f - 1) := by
+    have : t.f = (t.f - 1) + 1 := by omega
+    conv_lhs => rw [this, pow_succ]
+    ring
+  have hP : (0 : Int) < (2 : Int) ^ (t.f - 1) := two_pow_pos _
+  have hhalf : |2 * o - s.A * (2 : Int) ^ i| ≤ 1 := by
+    have e : o * (2 : Int) ^ t.f - s.A * ((2 : Int) ^ i * (2 : Int) ^ (t.f - 1))
+        = (2 * o - s.A * (2 : Int) ^ i) * (2 : Int) ^ (t.f - 1) := by rw [hF]; ring
+    rw [e, hF, abs_mul, abs_of_pos hP] at hone
+    have : |2 * o - s.A * (2 : Int) ^ i| < 2 := lt_of_mul_lt_mul_right hone hP.le
+    omega
+  have hcore := add_renorm_core s.A o (t.f + 1) (by omega) h0 h1 (by
+    have : findIdx s.A (1 - bitAt s.A (t.f + 1)) (t.f + 1) 0 = i := by
+      rw [hi]; unfold leadIdx; rw [hlf]; rfl
+    rw [this]; exact hhalf)
+  unfold Normal
+  simp only []
+  have a1 : t.f + 1 - 2 = t.f - 1 := by omega
+  have a2 : t.f + 1 - 1 = t.f := by omega
+  rw [a1, a2] at hcore
+  exact hcore
+example : Normal T1210 (addNorm T1210 ⟨512, false⟩ 1 ([1, 1, 1, 1, 1, 1, 1, 1, 1, 1], 0)) ∧
+    addNorm T1210 ⟨2048, false⟩ 0 ([1, 1, 1, 1, 1, 1, 1, 1, 1, 1], 0) = ⟨⟨1024, false⟩, 1⟩ ∧
+    addNorm T1210 ⟨-3, false⟩ 0 ([1, 0, 1, 1, 0, 1, 1, 1, 0, 1], 7) = ⟨⟨-768, false⟩, -8⟩ := by
+  refine ⟨?_, by decide, by decide⟩
   unfold Normal; decide
 
 end MpycV.C05
